@@ -86,6 +86,8 @@ def _play(t, model, hist):
     from trie.exceptions import NodeOverrideError
 
     for kind, kspec, val, syn in hist:
+        if kind == "reroot":
+            continue
         k = resolve_arg(kspec, model)
         val = resolve_bin_val(val, t.db)
         new = dict(model)
